@@ -20,6 +20,22 @@ func main() {
 	switch os.Args[1] {
 	case "case":
 		runCase(os.Args[2], os.Args[3], os.Args[4:])
+	case "selftest":
+		ld, err := vm.Load("/repo", []vm.HarnessFile{checks.ZZVrtFile()}, []string{checks.PkgPath("internal/zzvrt"), checks.PkgPath("internal/interpreter")})
+		if err != nil {
+			fmt.Println(err)
+			os.Exit(3)
+		}
+		m := vm.New(ld.Prog, ld.Pkgs, vm.RepoModule)
+		sv, _ := smt.NewSolver("z3", 8000)
+		m.Solver = sv
+		m.InitRepo(nil)
+		t0 := time.Now()
+		n, bad := m.SelfTest(3)
+		fmt.Println("comparisons:", n, "mismatches:", len(bad), "in", time.Since(t0))
+		for _, b := range bad {
+			fmt.Println("  ", b)
+		}
 	case "replay":
 		os.Exit(checks.Replay(os.Args[2]))
 	case "list":
